@@ -1,11 +1,11 @@
 #!/bin/bash
 # evaluate every delivered behaviour-preserving refactoring (wave 3): all registered checks must stay quiet
 cd "$(dirname "$0")/.."
-for d in /tmp/seed3_out/C*/[RS]; do
+for d in ${BENIGN_SRC:-/tmp/seed3_out}/C*/[RS]; do
   [ -f "$d/patch.diff" ] && [ -f "$d/meta.json" ] && [ -f "$d/equiv.py" ] || continue
   pid=$(basename $(dirname $d)); x=$(basename $d)
   [ -f "seeded/benign/$pid-$x/meta.json" ] && continue
   echo "=== $pid $x"
-  python3 tools/benign_eval.py $pid $x --src /tmp/seed3_out --all 2>&1 | grep -v "^WARNING" | grep -E "^(verified|alarms|C[0-9]+ rc [12])" | cut -c1-400
+  python3 tools/benign_eval.py $pid $x --src ${BENIGN_SRC:-/tmp/seed3_out} --all 2>&1 | grep -v "^WARNING" | grep -E "^(verified|alarms|C[0-9]+ rc [12])" | cut -c1-400
 done
 echo BATCH-DONE
